@@ -34,7 +34,9 @@ def esc_key(text, sep, style="bs"):
         return "'" + text + "'"
     out = []
     for i, ch in enumerate(text):
-        if ch in "\\[]()'\"^$% ./":
+        if style == "min" and ch in "./" and ch != sep and not (ch == "/" and i == 0):
+            out.append(ch)        # 'min': the OTHER notation's separator is ordinary text here and is left bare
+        elif ch in "\\[]()'\"^$% ./":
             out.append("\\" + ch)
         elif ch in "&!=<>~,:+-" and (i == 0 or ch in "=<>~!"):
             out.append("\\" + ch)
